@@ -194,6 +194,12 @@ def canon(b, o, depth=0):
         l = pl["l"]
         proj = list(pl["p"])
         d = b.single_def(l)
+        if d is not None and d[2] == "call" and not proj:
+            n = callee_name(d[3]) or ""
+            if re.search(r"convert::(From|Into)<.*>>::(from|into)$|::from$|::into$", n) and len(d[3]["args"]) == 1 and \
+               re.match(r"^(u|i)(8|16|32|64|128|size)$", b.local_ty(l)["s"]):
+                o = d[3]["args"][0]
+                continue
         if d is None or d[2] != "assign":
             return ("place", l, _projkey(proj))
         rv = d[3]["rv"]
@@ -581,6 +587,13 @@ def place_type(b, place):
 def sub_of_len(b, o):
     """if operand is (x - c).0 with constant c >= 0 and x the length of a sequence: (sequence key, c)"""
     o = b.resolve_copy(o)
+    call = b.def_call(o)
+    if call is not None and re.search(r"::saturating_sub$|::checked_sub$|::wrapping_sub$", callee_name(call) or "") and len(call["args"]) == 2:
+        c = const_int(b, call["args"][1])
+        ls = len_source(b, call["args"][0])
+        if c is not None and c >= 0 and ls is not None and (callee_name(call) or "").endswith("saturating_sub"):
+            return ls[1], c
+        return None
     pl = op_place(o)
     if pl is None or len(pl["p"]) != 1 or not isinstance(pl["p"][0], dict) or pl["p"][0].get("f") != 0:
         return None
@@ -595,6 +608,87 @@ def sub_of_len(b, o):
     if c is None or c < 0 or ls is None:
         return None
     return ls[1], c
+
+
+def induction_range(b, o):
+    """(lo operand, hi operand) if the operand is the loop variable of `for v in lo..hi`"""
+    k = canon(b, o)
+    if k[0] != "place" or not k[2] or k[2][-1] != "f0" or not any(x.startswith("dc:Some") for x in k[2]):
+        return None
+    d = b.single_def(k[1])
+    if not d or d[2] != "call" or not re.search(r"::next$", callee_name(d[3]) or "") or not d[3]["args"]:
+        return None
+    from .nondet import root_local
+    r = root_local(b, d[3]["args"][0])
+    if r is None:
+        return None
+    # r = into_iter(Range{lo, hi}) or r = Range{lo, hi}
+    seen = 0
+    cur = r
+    while seen < 6:
+        seen += 1
+        dd = b.single_def(cur)
+        if dd is None:
+            # moved once: `_iter = move _tmp` appears as a second def for loop-carried mutable iterators; take the first whole def
+            ds = [x for x in b.defs.get(cur, []) if x[2] in ("assign", "call")]
+            if not ds:
+                return None
+            dd = ds[0]
+        if dd[2] == "call":
+            n = callee_name(dd[3]) or ""
+            if re.search(r"::into_iter$", n) and dd[3]["args"]:
+                q = op_place(dd[3]["args"][0])
+                if q is None:
+                    return None
+                cur = q["l"]
+                continue
+            return None
+        rv = dd[3]["rv"]
+        if rv["k"] == "agg" and rv.get("variant") == "Range" and len(rv["ops"]) == 2:
+            return rv["ops"][0], rv["ops"][1]
+        if rv["k"] == "use":
+            q = op_place(rv["o"])
+            if q is None:
+                return None
+            cur = q["l"]
+            continue
+        return None
+    return None
+
+
+def add_const(b, o):
+    """(base operand, d) if operand is (base + d).0 with constant d >= 0, else (operand, 0)"""
+    o2 = b.resolve_copy(o)
+    pl = op_place(o2)
+    if pl is not None and len(pl["p"]) == 1 and isinstance(pl["p"][0], dict) and pl["p"][0].get("f") == 0:
+        d = b.single_def(pl["l"])
+        if d and d[2] == "assign" and d[3]["rv"]["k"] == "bin" and d[3]["rv"]["op"] in ("AddWithOverflow", "Add"):
+            c = const_int(b, d[3]["rv"]["r"])
+            if c is not None and c >= 0:
+                return d[3]["rv"]["l"], c
+    return o, 0
+
+
+def index_within_len(b, idx, seqkey):
+    """is idx provably < len(sequence seqkey)?  idx = loopvar + d over lo..(len - c) with d <= c; or idx = x % len"""
+    base, d = add_const(b, idx)
+    rng = induction_range(b, base)
+    if rng is not None:
+        lo, hi = rng
+        ls = len_source(b, hi)
+        c = 0
+        if ls is None:
+            sl = sub_of_len(b, hi)
+            if sl is not None:
+                ls, c = ("len", sl[0], None), sl[1]
+        if ls is not None and ls[1] == seqkey and d <= c and (const_int(b, lo) or 0) >= 0:
+            return "G3: loop variable of %s..len-%d plus %d" % (const_int(b, lo), c, d)
+    rv = b.def_rvalue(idx)
+    if rv is not None and rv["k"] == "bin" and rv["op"] == "Rem":
+        ls = len_source(b, rv["r"])
+        if ls is not None and ls[1] == seqkey:
+            return "G7: index is x % len of the same sequence"
+    return None
 
 
 def discharge(site, F=None):
@@ -619,6 +713,10 @@ def discharge(site, F=None):
             sl_ = sub_of_len(b, idx)
             if sl_ is not None and ls is not None and sl_[0] == ls[1] and sl_[1] >= 1:
                 return "G4b: index is len - %d of the same sequence (subtraction checked before)" % sl_[1]
+            if ls is not None:
+                why = index_within_len(b, idx, ls[1])
+                if why:
+                    return why
             if ci is not None and ls is not None:
                 lb = lower_bound_len(b, site.bb, ls)
                 if lb is not None and ci < lb:
@@ -654,11 +752,57 @@ def discharge(site, F=None):
                     lb = lower_bound(b, site.bb, d)
                     if lb is not None and lb >= 1:
                         return "G6: divisor tested non-zero"
+                    # divisor = a - b with a != b known
+                    d2 = b.resolve_copy(d)
+                    pl = op_place(d2)
+                    drv = None
+                    if pl is not None and len(pl["p"]) == 1 and isinstance(pl["p"][0], dict) and pl["p"][0].get("f") == 0:
+                        dd = b.single_def(pl["l"])
+                        if dd and dd[2] == "assign" and dd[3]["rv"]["k"] == "bin" and dd[3]["rv"]["op"] in ("SubWithOverflow", "Sub"):
+                            drv = dd[3]["rv"]
+                    else:
+                        r0 = b.def_rvalue(d)
+                        if r0 is not None and r0["k"] == "bin" and r0["op"] == "Sub":
+                            drv = r0
+                    if drv is not None:
+                        for op2, l2, r2 in facts_at(b, site.bb):
+                            if op2 == "Ne" and ((same_value(b, l2, drv["l"]) and same_value(b, r2, drv["r"])) or (same_value(b, l2, drv["r"]) and same_value(b, r2, drv["l"]))):
+                                return "G6b: divisor is a - b and a != b holds on this path"
+                    # divisor is the length of the sequence a surrounding `for i in 0..len` iterates (body runs only if len >= 1)
+                    ls = len_source(b, d)
+                    if ls is not None:
+                        for h, blks in b.loops():
+                            if site.bb in blks:
+                                for x in blks:
+                                    tt = b.term(x)
+                                    if tt["k"] == "call" and re.search(r"::next$", callee_name(tt) or ""):
+                                        rng = induction_range(b, {"cp": {"l": tt["dest"]["l"], "p": [{"dc": "Some", "vi": 1}, {"f": 0, "n": "0"}]}})
+                                        if rng is not None:
+                                            hs = len_source(b, rng[1])
+                                            if hs is not None and hs[1] == ls[1] and (const_int(b, rng[0]) or 0) >= 0:
+                                                return "G3b: inside a loop over 0..len of the same sequence, so len >= 1"
             return None
         if kind.startswith("Overflow("):
             vals = [const_int(b, o) for o in ops]
             if all(v is not None for v in vals):
                 return "G1: constant operands"
+            if kind in ("Overflow(Div)", "Overflow(Rem)") and len(ops) == 2:
+                cd = const_int(b, ops[1])
+                if cd is not None and cd not in (0, -1):
+                    return "G6: constant divisor %d (MIN / -1 impossible)" % cd
+            if kind in ("Overflow(Mul)", "Overflow(Add)") and len(ops) == 2:
+                ubs = [upper_bound_by_type(b, o) for o in ops]
+                if all(u is not None for u in ubs):
+                    tot = ubs[0] * ubs[1] if kind == "Overflow(Mul)" else ubs[0] + ubs[1]
+                    if tot < 2 ** 63:
+                        return "G9: operands bounded by their source types (%d, %d)" % (ubs[0], ubs[1])
+            if kind == "Overflow(Add)" and len(ops) == 2:
+                # loop variable + small constant stays below an existing length
+                c = const_int(b, ops[1])
+                if c is not None and c >= 0 and induction_range(b, ops[0]) is not None:
+                    rng = induction_range(b, ops[0])
+                    if len_source(b, rng[1]) is not None or sub_of_len(b, rng[1]) is not None:
+                        return "G3: loop variable bounded by a sequence length plus %d" % c
             return None
         return None
     if k == "unwrap":
@@ -684,6 +828,12 @@ def discharge(site, F=None):
         n = callee_name(t) or ""
         if re.search(r"::index(_mut)?$", n) and len(t["args"]) >= 2 and F is not None:
             base, idx = t["args"][0], t["args"][1]
+            why = index_within_len(b, idx, operand_key(b, base))
+            if why:
+                return why
+            sl_ = sub_of_len(b, idx)
+            if sl_ is not None and sl_[0] == operand_key(b, base) and sl_[1] >= 1:
+                return "G4b: index is len - %d of the same sequence (subtraction checked before)" % sl_[1]
             ci = known_value(b, site.bb, idx)
             if ci is not None:
                 sl = static_len(F, b, site.bb, base)
@@ -723,37 +873,72 @@ def discharge(site, F=None):
 
 
 def upper_bound_by_type(b, o, depth=0):
-    """max value an integer operand can take because it was widened from a narrower unsigned type"""
-    while depth < 8:
+    """max value an integer operand can take because it was (checked-)converted from a narrower integer type"""
+    while depth < 10:
         depth += 1
-        o = b.resolve_copy(o)
-        l = op_local(o)
-        if l is None:
+        k = canon(b, o)
+        if k[0] == "const":
+            return k[1] if k[1] is not None and k[1] >= 0 else None
+        if k[0] != "place":
             return None
-        d = b.single_def(l)
+        l, proj = k[1], k[2]
+        if proj:
+            # payload of `?` / unwrap on a checked conversion: (branch(try_from(x)) as Continue).0
+            if proj[-1] == "f0":
+                dd = b.single_def(l)
+                if dd and dd[2] == "call" and (callee_name(dd[3]) or "").endswith("Try>::branch") and dd[3]["args"]:
+                    src = b.def_call(dd[3]["args"][0])
+                    if src is not None and re.search(r"::try_from$|::try_into$", callee_name(src) or "") and src["args"]:
+                        o = src["args"][0]
+                        continue
+            # a field of a parameter / struct: bounded by its declared type when that is narrow
+            return None
         tys = b.local_ty(l)["s"]
-        if tys == "u16":
-            return 65535
-        if tys == "u8":
-            return 255
+        bound = {"u8": 255, "u16": 65535, "i8": 127, "i16": 32767, "i32": 2 ** 31 - 1, "u32": 2 ** 32 - 1}.get(tys)
+        if bound is not None:
+            return bound
+        d = b.single_def(l)
         if d is None:
             return None
         if d[2] == "call":
             n = callee_name(d[3]) or ""
-            if re.search(r"::into$|::from$", n) and d[3]["args"]:
+            if re.search(r"::into$|::from$|::try_from$|::try_into$|::unwrap$|::expect$", n) and d[3]["args"]:
                 o = d[3]["args"][0]
                 continue
             return None
         if d[2] == "assign" and d[3]["rv"]["k"] == "cast":
             o = d[3]["rv"]["o"]
             continue
+        if d[2] == "assign" and d[3]["rv"]["k"] == "use":
+            o = d[3]["rv"]["o"]
+            # a field read such as `(*aref).rows`: use the field's own type
+            pl = op_place(o)
+            if pl is not None and pl["p"]:
+                return None
+            continue
         return None
     return None
+
+
+def mutated_between(b, seqkey, guard_bb, use_bb):
+    """is there a length-changing call on the sequence between the guard and the use?"""
+    for bi, t in b.calls():
+        n = callee_name(t) or ""
+        if re.search(r"::(push|pop|clear|truncate|remove|swap_remove|drain|retain|insert|append|split_off|resize|dedup\w*)$", n) and t["args"]:
+            if operand_key(b, t["args"][0]) == seqkey:
+                if bi != use_bb and b.dominates(guard_bb, bi) and use_bb in od.reach(b, bi):
+                    return True
+    return False
 
 
 def lower_bound_len(b, bb, ls):
     """lower bound on the length of the sequence described by ls from dominating tests on (another read of) its len"""
     best = None
+    for s_, on, taken in dominating_guards(b, bb):
+        call = b.def_call(on)
+        if call is not None and re.search(r"::is_empty$", callee_name(call) or "") and call["args"]:
+            if operand_key(b, call["args"][0]) == ls[1] and taken == ("=", 0) and not mutated_between(b, ls[1], s_, bb):
+                best = 1
     for op, l, r in facts_at(b, bb):
         for (x, y, flip) in ((l, r, False), (r, l, True)):
             lx = len_source(b, x)
